@@ -11,9 +11,24 @@ def apply(ctx, W):
     rules.from_impl_into_verus(ctx, g, "&str", "ItemPathSegment", "crate::verif_specs::spec_segment(v@)", tags=("C14",), trusted=True)
     m = W.file("semantic/module.rs")
     rules.plumbing_once(m)
-    fn_into_verus(ctx, m, "Module::new", mode="T", ret="r", tags=("C14", "C15"), ensures=[
-        """r is Ok ==> r->Ok_0.path == path && r->Ok_0.ast == ast && r->Ok_0.extern_values == extern_values
-                && r->Ok_0.definition_paths@ == Set::<ItemPath>::empty()"""])
+    mn = m.fn("Module::new")
+    # W5 (trusted segment): the grouping of backend blocks by backend name uses the HashMap entry API; its only
+    # consumer is the backend (outside the verified text, checked by the bounded backend stand-in)
+    l_bk = loop_by_header(m, mn, "backends")
+    rules.outline(ctx, m, mn, m.top_let(mn, "backends_map"), m.top_stmt_of(mn, l_bk), "new__backends", "backends: &[grammar::Backend]", "backends",
+                  outs=["backends_map"], types=["HashMap<String, Vec<Backend>>"], kind="plain", mode="T", tags=("C14",))
+    fnn, un = fn_into_verus(ctx, m, "Module::new", ret="r", tags=("C05", "C10", "C12", "C14", "C15", "C17"), ensures=[
+        ("""r is Ok ==> r->Ok_0.path == path && r->Ok_0.ast == ast && r->Ok_0.extern_values == extern_values
+                && r->Ok_0.definition_paths@ == Set::<ItemPath>::empty()""", ("C14", "C15"), "module-fields"),
+        ("r is Ok ==> impl_blocks_kept(path, impls@, r->Ok_0.impls@)", ("C05", "C10", "C14"), "impl-blocks-kept"),
+        ("r is Ok ==> opt_string_view(r->Ok_0.doc) == spec_doc(ast.attributes.0@)", ("C17",), "module-doc"),
+    ])
+    l_im = loop_by_header(m, mn, "impls")
+    rules.for_to_index_loop(ctx, m, un, l_im, seq="impls", ivar="i_i", elem_ref=True)
+    rules.index_loop_spec(ctx, m, un, l_im, tags=("C05", "C14"), invariants=[
+        ("forall|k: int| 0 <= k < i_i ==> impls_map@.contains_key(#[trigger] spec_join(path, impls@[k].name.0@)) && impls_map@[spec_join(path, impls@[k].name.0@)] == impls@[k]", ("C05", "C14")),
+        ("forall|p: ItemPath| #[trigger] impls_map@.contains_key(p) ==> exists|k: int| 0 <= k < i_i && p == spec_join(path, #[trigger] impls@[k].name.0@)", ("C05", "C14")),
+    ])
 
     ss = W.file("semantic/semantic_state.rs")
     fn, u = fn_into_verus(ctx, ss, "SemanticState::add_module", ret="res", tags=U, ensures=[
@@ -24,6 +39,10 @@ def apply(ctx, W):
         ("res is Ok ==> registry_extends(&old(self).type_registry, &final(self).type_registry)", ("C14", "C19"), "no-silent-overwrite"),
         ("""res is Ok ==> forall|j: int| 0 <= j < module.definitions@.len() ==>
                 final(self).modules@[*path].definition_paths@.contains(#[trigger] spec_join(*path, module.definitions@[j].name.0@))""", ("C14",), "definition-paths"),
+        ("res is Ok ==> impl_blocks_kept(*path, module.impls@, final(self).modules@[*path].impls@)", ("C05", "C10", "C14"), "impl-blocks-kept"),
+        ("res is Ok ==> opt_string_view(final(self).modules@[*path].doc) == spec_doc(module.attributes.0@)", ("C17",), "module-doc"),
+        ("""res is Ok ==> forall|i: int, j: int| 0 <= i < j < module.extern_values@.len() ==>
+                (#[trigger] module.extern_values@[i]).name.0@ != (#[trigger] module.extern_values@[j]).name.0@""", ("C14",), "extern-value-names-distinct"),
     ])
     # ---- extern values
     coll = [c for c in ss.method_calls(fn, "collect")]
@@ -37,6 +56,22 @@ def apply(ctx, W):
         ("""attr_usize(ev.attributes.0@, "address"@, i_v as int, address)""", ("C15",)),
     ])
     ghost(ctx, ss, u, body_start(l_ev), 'proof { reveal_strlit("address"); }')
+    # ---- duplicate extern values are rejected (F18)
+    l_x = loop_by_header(ss, fn, "&extern_values")
+    rules.for_to_index_loop(ctx, ss, u, l_x, seq="extern_values", ivar="i_x")
+    rules.index_loop_spec(ctx, ss, u, l_x, tags=("C14",), invariants=[
+        ("forall|k: int| 0 <= k < i_x ==> extern_value_names@.contains((#[trigger] extern_values@[k]).name)", ("C14",)),
+        ("forall|s: String| #[trigger] extern_value_names@.contains(s) ==> exists|k: int| 0 <= k < i_x && (#[trigger] extern_values@[k]).name == s", ("C14",)),
+        ("forall|a: int, b: int| 0 <= a < b < i_x ==> (#[trigger] extern_values@[a]).name != (#[trigger] extern_values@[b]).name", ("C14",)),
+    ])
+    ghost(ctx, ss, u, after(ss, l_x), """proof {
+            assert forall|i: int, j: int| 0 <= i < j < module.extern_values@.len() implies
+                (#[trigger] module.extern_values@[i]).name.0@ != (#[trigger] module.extern_values@[j]).name.0@ by {
+                assert(extern_value_ok(module.extern_values@[i], extern_values@[i]) && extern_value_ok(module.extern_values@[j], extern_values@[j]));
+                assert(extern_values@[i].name != extern_values@[j].name);
+                crate::verif_prelude::axiom_string_ext(extern_values@[i].name, extern_values@[j].name);
+            }
+        }""")
     # ---- definitions
     ghost(ctx, ss, u, after(ss, ss.top_let(fn, "extern_values")), "let ghost evs0 = extern_values;")
     l_d = loop_by_header(ss, fn, "module.definitions")
@@ -47,6 +82,8 @@ def apply(ctx, W):
     common = [
         ("self.modules@.contains_key(*path)", ("C14",)),
         ("self.modules@[*path].extern_values == evs0", ("C15",)),
+        ("impl_blocks_kept(*path, module.impls@, self.modules@[*path].impls@)", ("C05", "C14")),
+        ("opt_string_view(self.modules@[*path].doc) == spec_doc(module.attributes.0@)", ("C17",)),
         ("registry_extends(&old(self).type_registry, &self.type_registry)", ("C14", "C19")),
     ]
     rules.index_loop_spec(ctx, ss, u, l_d, tags=("C14",), invariants=common + [
